@@ -422,6 +422,74 @@ def scalar_target_table(P, g):
     return table, found
 
 
+def bag_renamer(P, g):
+    """the function that renames schema types against the identifier bag built by `g`: the anchored make_local_type_names, else —
+    by role — the unique non-test caller of `g`"""
+    from facts import AnchorMissing
+    ml0 = P.fn(PR + "schema_type_printer::context::make_local_type_names", required=False)
+    if ml0 is None:
+        users = [P.fns[c] for c in P.callers_of(g.path) if c in P.fns and "::tests" not in c and not P.fns[c].derived and P.fns[c].kind in ("Fn", "AssocFn")]
+        if len(users) != 1:
+            raise AnchorMissing("the function that renames schema types against the identifier bag (callers of get_bag_of_identifiers: %s)" % [u.path for u in users])
+        ml0 = users[0]
+    return ml0
+
+
+def bag_all_targets(P, R, rule):
+    """The identifier bag (against which schema type names are renamed) covers the scalar mappings of *all four* targets: the
+    module-level alias `export type X = ...` is shared by every namespace, so a clash in any target's mapping must rename X
+    everywhere.  Shared by C09 (the `__OperationInput` aliases that Variables types refer to) and C10."""
+    from facts import node_callees
+    g = P.fn(PR + "schema_type_printer::context::get_bag_of_identifiers")
+    ml0 = bag_renamer(P, g)
+    gi = inlined(P, g)
+
+    def calls(suffix):
+        return any(p and p.endswith(suffix) for n in gi.walk() for pair in node_callees(n) for p in pair)
+    tt_params = [short(f.path) for f in (g, ml0) for t in f.sig_inputs if "TypeTarget" in t]
+    if calls("ScalarTypeConfig::get_type") or tt_params:
+        R.violated(rule, "bag-all-targets", "the identifier bag is built per target (%s): a schema type whose name occurs only in another target's scalar mapping is not renamed, "
+                   "and the shared module-level alias of that name shadows the global identifier inside that target's namespace"
+                   % (tt_params or "get_type(target) instead of type_names()"), loc=g.loc())
+    elif calls("ScalarTypeConfig::type_names"):
+        R.holds(rule, "bag-all-targets", "the bag is built from ScalarTypeConfig::type_names() (every target's mapping)", loc=g.loc())
+    else:
+        R.undecided(rule, "bag-all-targets", "get_bag_of_identifiers calls neither ScalarTypeConfig::type_names nor get_type; which mappings feed the bag "
+                    "is not decided", loc=g.loc())
+
+
+def scalar_map_precedence(P, R, rule):
+    """The map scalar name -> TypeScript type of the schema printer options is filled from two sources, the built-in scalars (the
+    defaults) and the configured `scalarTypes`; in a map, the entry written *later* wins, and the documented precedence is that a
+    configured entry overrides a built-in one.  Read from the order of the two sources wherever they are combined: `a.chain(b)`
+    (b later), `m.extend(b)` / `m.insert(..)` on a map that already holds a (b later)."""
+    require_fields(P, (SOPT, "scalar_types"), (CFG + "config::GenerateTypeConfig", "scalar_types"))
+    fc = P.fn(SOPT + "::from_config")
+    fi = inl(P, fc)
+    pv = Prov(fi)
+
+    def cls(e):
+        a = pv.atoms(e)
+        cfg = any(x[0] == "field" and x[1] == CFG + "config::GenerateTypeConfig" and x[2] == "scalar_types" for x in a)
+        dflt = any(x[0] in ("call", "def") and (x[1].endswith("get_builtin_scalar_types") or (x[1].startswith("<" + SOPT) and x[1].endswith("::default"))) for x in a)
+        return "config" if cfg and not dflt else ("builtin" if dflt and not cfg else None)
+    pairs = []
+    for n in fi.walk():
+        if n.get("k") == "MethodCall" and n["method"] in ("chain", "extend", "insert", "extend_from_slice", "append") and n["args"]:
+            first, later = cls(n["recv"]), cls(n["args"])
+            if first and later and first != later:
+                pairs.append((first, later, n["method"]))
+    bad = [p for p in pairs if p[1] == "builtin"]
+    if bad:
+        R.violated(rule, "scalar-map-precedence", "%s combines the configured scalarTypes with the built-in scalars by `%s` with the built-ins *after* the "
+                   "configured entries: in the resulting map the later entry wins, so a built-in mapping (ID, String, ..) overrides what the "
+                   "user configured for that scalar" % (fc.path, bad[0][2]), loc=fc.loc())
+    elif pairs:
+        R.holds(rule, "scalar-map-precedence", "configured scalarTypes are written after the built-in scalars (and override them)", loc=fc.loc())
+    else:
+        R.undecided(rule, "scalar-map-precedence", "how %s combines the built-in scalars with the configured scalarTypes was not recognised" % fc.path, loc=fc.loc())
+
+
 def r09b(P, R):
     def _part0():
         require_fields(P, (A + "variable::Variable", "name"), (A + "variable::VariableDefinition", "type"), (A + "variable::VariablesDefinition", "definitions"))
@@ -569,7 +637,7 @@ def r09b(P, R):
             R.undecided("R09-b", "scalar-precedence", "no `config.or(directive)`-like combination of the two sources of a scalar's TypeScript type was "
                         "recognised in %s" % gs0.path, loc=gs.loc())
 
-    sections(R, "R09-b", ("variables", _part0), ("scalar-target", _part1), ("scalar-table", _part2), ("directive-scalars", _part3))
+    sections(R, "R09-b", ("variables", _part0), ("scalar-target", _part1), ("scalar-table", _part2), ("directive-scalars", _part3), ("clash-bag", lambda: bag_all_targets(P, R, "R09-b")), ("scalar-map", lambda: scalar_map_precedence(P, R, "R09-b")))
 
 
 def printer_logic(g):
